@@ -24,11 +24,22 @@ def _mangle(tree, cname):
     return M().visit(tree)
 
 
+class ContractEvalError(Exception):
+    """the contract text itself could not be evaluated natively: never a witness"""
+
+
 class _LazyImplies(ast.NodeTransformer):
-    """implies(a, b) -> (not a) or b   (python would evaluate b eagerly)"""
+    """implies(a, b) -> (not a) or b   (python would evaluate b eagerly);
+    e.find_data(d) -> list(e.find_data(d)) and next(x) -> next(iter(x)): lark hands out generators, the contracts
+    (and the VC encoding) treat the result as the list of its elements"""
 
     def visit_Call(self, node):
         self.generic_visit(node)
+        if isinstance(node.func, ast.Attribute) and node.func.attr == "find_data":
+            return ast.copy_location(ast.Call(func=ast.Name(id="list", ctx=ast.Load()), args=[node], keywords=[]), node)
+        if isinstance(node.func, ast.Name) and node.func.id == "next" and len(node.args) == 1:
+            node.args = [ast.Call(func=ast.Name(id="iter", ctx=ast.Load()), args=[node.args[0]], keywords=[])]
+            return node
         if isinstance(node.func, ast.Name) and node.func.id == "implies" and len(node.args) == 2:
             return ast.copy_location(ast.BoolOp(op=ast.Or(), values=[
                 ast.UnaryOp(op=ast.Not(), operand=node.args[0]), node.args[1]]), node)
@@ -173,7 +184,7 @@ class Native:
 
     def check_call(self, key, fn, self_obj, args, kwargs=None, ghost_exit=None, check_requires=True):
         con = self.uni.contracts[key]
-        ghost_exit = ghost_exit or con.get("ghost_exit")
+        ghost_exit = ghost_exit or con.get("ghost_exit_native") or con.get("ghost_exit")
         ghost_entry = con.get("ghost_entry")
         """run the real function `fn` on concrete inputs under contract `key`.
         returns (outcome, value); raises ContractViolation when a clause fails."""
@@ -249,12 +260,14 @@ class Native:
             if expected:
                 raise ContractViolation(key, "raises[%s]/if" % exc, "returned normally")
         if ghost_exit:
+            ghost_ns["result"] = value
             exec(compile(_mangle(ast.parse(ghost_exit), cname), "<ghost>", "exec"), ghost_ns)
+        ghosts = {k: v for k, v in ghost_ns.items() if k.startswith("g_")}
         for name, src, code, vals in ens:
             try:
-                ok = ev(code, {"result": value, "__old": vals})
+                ok = ev(code, dict(ghosts, result=value, __old=vals))
             except Exception as e:      # noqa
-                raise ContractViolation(key, "post[%s]" % name, "evaluation error %r" % (e,))
+                raise ContractEvalError("%s post[%s]: %r" % (key, name, e))
             if not ok:
                 raise ContractViolation(key, "post[%s]" % name, src)
         return ("return", value)
